@@ -215,7 +215,9 @@ pub fn features(d: &Doc) -> Vec<String> {
     let mut f: std::collections::BTreeSet<String> = Default::default();
     let mut on_tok = |t: &Tok, in_cell: bool, f: &mut std::collections::BTreeSet<String>| {
         match t.k.as_str() {
-            "W" if special_word(&t.s) => {
+            // (table cells are written through an escaping writer: there F-C01-1 applies only to what that
+            // writer leaves alone - angle brackets and ampersands, i.e. entities and inline HTML)
+            "W" if special_word(&t.s) && (!in_cell || t.s.chars().any(|c| c == '<' || c == '>' || c == '&')) => {
                 f.insert("special-word".into());
             }
             "Code" if t.s.contains('`') => {
